@@ -2,6 +2,7 @@ package props
 
 import (
 	"fmt"
+	"github.com/evanoberholster/imagemeta/imagetype"
 	"sort"
 	"strings"
 
@@ -180,6 +181,7 @@ var (
 	dDecodeHeif = decodeFn{"DecodeHeif", func(b []byte) (exif2.Exif, error) { return imagemeta.DecodeHeif(rsOf(b)) }}
 	dDecodeJPEG = decodeFn{"DecodeJPEG", func(b []byte) (exif2.Exif, error) { return imagemeta.DecodeJPEG(rsOf(b)) }}
 	dDecodePng  = decodeFn{"DecodePng", func(b []byte) (exif2.Exif, error) { return imagemeta.DecodePng(rsOf(b)) }}
+	dDecodeCR2  = decodeFn{"DecodeCR2", func(b []byte) (exif2.Exif, error) { return imagemeta.DecodeCR2(rsOf(b)) }}
 	dDecodeCR3  = decodeFn{"DecodeCR3", func(b []byte) (exif2.Exif, error) { return imagemeta.DecodeCR3(rsOf(b)) }}
 	dParse      = decodeFn{"exif2.Parse", func(b []byte) (exif2.Exif, error) { return exif2.Parse(rsOf(b)) }}
 )
@@ -264,5 +266,25 @@ func embedAll(r *core.Rng, ec *exifCase, big bool) []embedded {
 	parts.OddSiblings = r.Chance(1, 3)
 	cr3 := gen.BuildCR3(r, parts, r.Pick(0, 1, 2), r.Chance(1, 4))
 	out = append(out, embedded{name: "CR3", bytes: cr3.Bytes, it: 15, decs: []decodeFn{dDecode, dDecodeCR3}})
+	// CR2 (last, so that the little- and big-endian lists stay aligned): the same payload (little-endian only, as the format is) with the first directory at 16
+	// or later and Canon's "CR\x02\x00" + raw-directory offset at bytes 8..15 - the more specific
+	// signature, which the payload's own tags (a DNGVersion tag, a maker note) must not override
+	if !big {
+		L := ec.layout
+		L.Big = false
+		L.R = core.NewRng(ec.lseed, 1)
+		L.NoteTags = ec.rec.NoteTags
+		L.MinLen = 32
+		if L.FirstOff < 16 {
+			L.FirstOff = 16
+		}
+		ct := gen.BuildTIFF(ec.linkedRoot(), L)
+		if withinLimits(ct) {
+			cb := append([]byte(nil), ct.Bytes...)
+			copy(cb[8:], "CR\x02\x00")
+			copy(cb[12:], core.NewRng(ec.lseed, 99).Bytes(4))
+			out = append(out, embedded{name: "CR2", bytes: cb, it: int(imagetype.ImageCR2), decs: []decodeFn{dDecode, dDecodeCR2}})
+		}
+	}
 	return out
 }
